@@ -14,6 +14,7 @@ use serde::{Deserialize, Serialize};
 
 #[derive(ValueEnum, Clone, Copy, Debug, PartialEq, Eq)]
 pub enum Mode {
+    #[value(alias = "quick", aliases = ["rapid", "speedy"])]
     Fast,
     #[value(name = "slow-mode", alias = "s", alias = "slowly")]
     Slow,
@@ -1369,6 +1370,14 @@ fn exec_ty<T: Mirror>(name: &str, sc: &DeriveSc, log: &mut Log, out: &mut Outcom
                     }
                     if Mode::from_str(pv.get_name(), false).ok().and_then(|b| b.to_possible_value()).map(|p| p.get_name().to_string()) != Some(pv.get_name().to_string()) {
                         out.violate("value-enum-mapping", "round-trip", format!("to_possible_value/from_str do not round-trip for {:?}", v));
+                        return;
+                    }
+                }
+                // the spellings as the corpus source declares them (not as to_possible_value() reports them)
+                const DECLARED: &[(&str, Mode)] = &[("fast", Mode::Fast), ("quick", Mode::Fast), ("rapid", Mode::Fast), ("speedy", Mode::Fast), ("slow-mode", Mode::Slow), ("s", Mode::Slow), ("slowly", Mode::Slow), ("two-words", Mode::TwoWords), ("secret", Mode::Secret), ("hush", Mode::Secret)];
+                for (n, v) in DECLARED {
+                    if Mode::from_str(n, false).ok() != Some(*v) {
+                        out.violate("value-enum-mapping", "declared-spelling", format!("the declared name/alias {n:?} of {:?} maps to {:?}", v, Mode::from_str(n, false)));
                         return;
                     }
                 }
